@@ -389,7 +389,50 @@ class ContractTable:
     """qualified name (optionally 'name/<nparams>' for overloads) -> Contract"""
 
     def __init__(self, table):
-        self.table = table
+        self.table = dict(table)
+        self._bound = False
+
+    def bind(self, model):
+        """translate contracts whose function kept its parameter count but renamed parameters (positional match against the
+        names recorded in tables/contract_params.json when the contract was reviewed)"""
+        if self._bound:
+            return
+        self._bound = True
+        import json, os, re
+        snap_path = os.path.join(os.path.dirname(os.path.dirname(os.path.abspath(__file__))), "tables", "contract_params.json")
+        if not os.path.exists(snap_path):
+            return
+        snap = json.load(open(snap_path))
+        for key, old_names in snap.items():
+            c = self.table.get(key)
+            if c is None:
+                continue
+            q = key.split("/")[0]
+            np = int(key.split("/")[1]) if "/" in key else None
+            fs = [f for f in model.fns(q, pattern=True, required=False) if (np is None or len(f.params) == np) and len(f.params) == len(old_names)]
+            if not fs:
+                continue
+            new_names = [p_["n"] for p_ in fs[0].params]
+            ren = {o: n_ for o, n_ in zip(old_names, new_names) if o != n_}
+            if not ren:
+                continue
+
+            def tr(x):
+                if isinstance(x, str):
+                    return re.sub(r"\b(%s)\b" % "|".join(re.escape(o) for o in ren), lambda mt: ren[mt.group(1)], x)
+                if isinstance(x, tuple):
+                    return tuple(tr(y) for y in x)
+                if isinstance(x, list):
+                    return [tr(y) for y in x]
+                if isinstance(x, set):
+                    return set(tr(y) for y in x)
+                if isinstance(x, dict):
+                    return {tr(k_): tr(v_) for k_, v_ in x.items()}
+                return x
+            c2 = Contract(buffers=tr(c.buffers), requires=tr(c.requires), ensures=tr(c.ensures), onepast=tr(c.onepast), notes=c.notes,
+                          literals=c.literals, foreign=tr(c.foreign), invariants=tr(c.invariants), axioms=tr(c.axioms), ret=tr(c.ret),
+                          call_requires=tr(c.call_requires), objects=c.objects, accessor_model=c.accessor_model, lower_bounds=tr(c.lower_bounds))
+            self.table[key] = c2
 
     def get(self, q, nparams=None):
         if q is None:
@@ -414,6 +457,8 @@ class Zone(dataflow.Client):
         self.model = model
         self.fn = fn
         self.contracts = contracts
+        if hasattr(contracts, "bind"):
+            contracts.bind(model)
         self.contract = contracts.get(fn.q, len(fn.params)) or Contract()
         self.assume_entry = assume_entry or []
         self.pnames = {p["d"]: p["n"] for p in fn.params}
